@@ -677,7 +677,12 @@ class StmtMixin:
         F = lambda suffix, sort: fn('%s!%s' % (name, suffix), *sorts, sort)(*ins)
         kindt = F('kind', I)     # 0 exhausted, 1 break, 2 return, 3 raise
         outs = []
+        is_comp = not isinstance(node, (ast.For, ast.While))
+        if is_comp:
+            s.add(z3.Or(kindt == 0, kindt == 3))       # a comprehension can only finish or raise
         for code, label in ((0, 'stop'), (1, 'break'), (2, 'ret'), (3, 'raise')):
+            if is_comp and code in (1, 2):
+                continue
             s2 = s.fork()
             s2.add(kindt == code)
             if not self.feasible(s2):
